@@ -6,6 +6,7 @@ import (
 	"context"
 	"encoding/json"
 	"fmt"
+	"hash/fnv"
 	"net"
 	"net/http"
 	"net/http/httptest"
@@ -130,6 +131,14 @@ func foreign(s, tok string) string {
 	return ""
 }
 
+// remoteOf is the client address of the request carrying tok: every request comes from its own address.
+func remoteOf(tok string) string {
+	h := fnv.New32a()
+	h.Write([]byte(tok))
+	v := h.Sum32()
+	return fmt.Sprintf("10.%d.%d.%d", byte(v>>16), byte(v>>8), byte(v))
+}
+
 // inspect checks every getter of c against the expectation carried by the request itself.
 func (h *harness) inspect(where string, c fox.Context, entry bool) *exp {
 	req := c.Request()
@@ -201,6 +210,9 @@ func (h *harness) inspect(where string, c fox.Context, entry bool) *exp {
 		if got := c.QueryParams()["mut"]; len(got) != 0 {
 			h.fail("%s: QueryParams()[mut] = %q on entry: the request URL has no such key, an earlier request's handler had set it on its own values", pre, got)
 		}
+	}
+	if got, want := c.RemoteIP().String(), remoteOf(e.tok); got != want {
+		h.fail("%s: RemoteIP() = %s, the request came from %s", pre, got, want)
 	}
 	if got := c.Header("X-Tok"); got != e.tok {
 		h.fail("%s: Header(X-Tok) = %q, want %q", pre, got, e.tok)
@@ -416,6 +428,7 @@ func buildStep(s Step, tok string, n int) (*http.Request, *exp) {
 	}
 	req := httptest.NewRequest(method, "http://"+host+path+query, nil)
 	req.Header.Set("X-Tok", tok)
+	req.RemoteAddr = remoteOf(tok) + ":4711"
 	if s.CloneWith {
 		req.Header.Set("X-Clonewith", "1")
 	}
@@ -516,6 +529,9 @@ func (h *harness) recheckClones() {
 			}
 			if !strings.Contains(cl.Request().URL.Path, e.tok) || (cl.QueryParam("q") != e.tok && !e.sameQuery) || (e.sameQuery && cl.QueryParam("s") != "same") || cl.Header("X-Tok") != e.tok {
 				h.fail("%s: request data path=%q q=%q X-Tok=%q", pre, cl.Request().URL.Path, cl.QueryParam("q"), cl.Header("X-Tok"))
+			}
+			if got, want := cl.RemoteIP().String(), remoteOf(e.tok); got != want {
+				h.fail("%s: RemoteIP() = %s, the request came from %s", pre, got, want)
 			}
 			if cl.Pattern() != e.pattern || cl.Scope() != e.scope {
 				h.fail("%s: Pattern()=%q Scope()=%d, want %q %d", pre, cl.Pattern(), cl.Scope(), e.pattern, e.scope)
